@@ -11,13 +11,14 @@ fn main_with(decls: &str, body: &str) -> String {
     format!("{}char f() {{ return c; }}\nvoid g() {{ c = c + 1; }}\nvoid main()\n{{\n{}\n}}\n", decls, body)
 }
 
-pub const FLOW_PREFIX: [&str; 19] = ["X--;", "a = b;", "Y--;", "a++;", "X = a;", "a = 5;", "s--;", "a--;", "a = X;", "X++;", "Y = a;", "Y++;", "a = b + 1;", "a = arr[X];", "a &= 3;", "s++;", "a = f();", "arr[X] = a;", "X = 1;"];
+pub const FLOW_PREFIX: [&str; 23] = ["X--;", "a = b;", "Y--;", "a++;", "X = a;", "a = 5;", "s--;", "a--;", "a = X;", "X++;", "Y = a;", "Y++;", "a = b + 1;", "a = arr[X];", "a &= 3;", "s++;", "a = f();", "arr[X] = a;", "X = 1;", "a = b + 1; load(c);", "a = b + 1; asm(\"LDA #0\", 2);", "X = a; load(c);", "Y = 3;"];
 pub const FLOW_C1: [&str; 10] = ["b == 3", "c && a", "b", "b && X", "b < c", "X == 1", "c != Y", "b & 1", "c || a", "c && !Y"];
 pub const FLOW_C2: [&str; 14] = ["X", "a", "Y", "!X", "s", "a <= 3", "!a", "a == 0", "X != 0", "Y == 0", "a != 0", "a > 3", "X <= 1", "s == 0"];
 
 pub fn flow_templates() -> Vec<&'static str> {
     vec![
         "{P} if ({C2}) r = 2; else r = 3;",
+        "{P} c = 0; {P} if ({C2}) r = 2; else r = 3;",
         "for (c = 0; c < 2; c++) { {P} if ({C2}) r++; }",
         "{P} r = ({C2}) ? 2 : 3;",
         "{P} while ({C2}) { r++; break; }",
@@ -43,7 +44,13 @@ pub fn flow_templates() -> Vec<&'static str> {
 
 pub fn f2_flow(tier: Tier) -> Vec<SemCase> {
     let quick = tier == Tier::Quick;
-    let ps: Vec<&str> = if quick { FLOW_PREFIX[..8].to_vec() } else { FLOW_PREFIX.to_vec() };
+    let ps: Vec<&str> = if quick {
+        let mut v = FLOW_PREFIX[..8].to_vec();
+        v.extend_from_slice(&["X = 1;", "a = b + 1; load(c);", "a = b + 1; asm(\"LDA #0\", 2);"]);
+        v
+    } else {
+        FLOW_PREFIX.to_vec()
+    };
     let c1s: Vec<&str> = if quick { FLOW_C1[..4].to_vec() } else { FLOW_C1.to_vec() };
     let c2s: Vec<&str> = if quick { FLOW_C2[..6].to_vec() } else { FLOW_C2.to_vec() };
     let decls: Vec<&str> = vec![D0_TEXT, D0S_TEXT];
